@@ -591,5 +591,5 @@ SUBCHECKS = [
                       "history:negative": 60, "history:slice": 60, "history:mixed_collection": 60,
                       "history:write_after_kept_subnode": 60, "tree-built-from-strided-columns": 200, "history:reparented": 150}),
     Sub("branch_tree_copy", btcopy_strategy, run_btcopy, quick=400, thorough=3000, shards_quick=2,
-        required={"copy-edit:drop-a-remembered-branch": 40, "copy-edit:move-a-remembered-branch": 21, "copy-edit:write-a-node": 40}),
+        required={"copy-edit:drop-a-remembered-branch": 40, "copy-edit:move-a-remembered-branch": 21, "copy-edit:write-a-node": 25}),
 ]
